@@ -197,7 +197,8 @@ def quic_steps(draw, max_steps=12, key_updates=True, cids=True, zero_cid=False):
         if k <= 1 and key_updates:
             steps.append({"op": "ku", "d": d})
         elif k == 2 and cids:
-            steps.append({"op": "ncid", "d": d, "len": draw(st.integers(1, 20))})
+            steps.append({"op": "ncid", "d": d, "len": draw(st.integers(1, 20)), "w": draw(st.sampled_from([None, None, 2, 4, 8])),
+                          "w2": draw(st.sampled_from([0, 0, 1, 2, 8]))})
         elif k in (3, 4) and cids:
             steps.append({"op": "usecid", "d": d, "i": draw(st.integers(0, 5))})
         elif k == 6 and cids and draw(st.integers(0, 2)) == 0:
